@@ -16,7 +16,8 @@ CLAIMS = {
  "C01": ("path-sensitive decision-table extraction over SSA (doUpdate, doSync item/sweep, run dispatch) + field confinement",
          "other", "Decides the per-step transition function of the cache for every abstract input (all objects, versions, filters; "
          "by induction every history): each acyclic SSA path of doUpdate / one doSync element / the sweep is compared with the reference "
-         "semantics; plus single-owner confinement of items/filter, key construction, doRefilter flow, no Accept on an absent entry. "
+         "semantics; plus single-owner confinement of items/filter, key construction, doRefilter flow, no Accept on an absent entry, and the "
+         "list helpers between client and cache.sync handing over the server's list element for element (duplicates are folded by version only). "
          "Does not decide filter purity or duplicates beyond the left fold.", "DESIGN.md §5 C01"),
  "C03": ("transition-table extraction of controller.run + shape rules for the list helpers",
          "other", "Decides that every list result is reconciled into the cache, published (after the first) and followed by a watch "
